@@ -127,9 +127,14 @@ def scenario(m0, n0, v0, m1, n1, v1, m2, n2, v2, cut):
     try:
         nxt = 0          # index of the next frame the stream will present
         dead = False
-        for _ in range(nf + 1):
+        for ci in range(nf + 1):
             if nxt > nf:
                 break
+            if ci == 1 and sh("state2") is not None:
+                # the subscription set changes between two reads (frames of the old set may already be queued)
+                state = sh("state2")
+                c._sub_all = state == "all"
+                c._subscribed_types = CW.mkset([ALL] if state == "all" else ([D1.type_id] if state == "sub" else []))
             try:
                 m = c.read_message(timeout=timeout, ack=ack, sync_check=sync)
                 outcome = "msg" if m is not None else "none"
